@@ -16,6 +16,7 @@
 #include <map>
 #include <sstream>
 #include <string>
+#include <algorithm>
 #include <vector>
 
 #include "sonic/sonic.h"
@@ -34,6 +35,7 @@
 #include "cmd_quote.h"
 #include "cmd_ser.h"
 #include "cmd_strdec.h"
+#include "cmd_threads.h"
 
 int main(int argc, char** argv) {
   std::ios::sync_with_stdio(false);
@@ -61,6 +63,8 @@ int main(int argc, char** argv) {
       vdom::cmd(tok, out);
     } else if (tok[0] == "ser") {
       cmd_ser(tok, out);
+    } else if (tok[0].compare(0, 4, "thr-") == 0) {
+      vthr::cmd(tok, out);
     } else if (tok[0] == "memcmp") {
       cmd_memcmp(tok, out);
     } else if (tok[0] == "quote") {
